@@ -250,7 +250,251 @@ theorem page_leaf_by_difference {o : Ops R G} (L : Lawful o) {ls : Nat} {t : Tre
       · have : 0 < p * ls := Nat.mul_pos e hls
         omega
     subst this
-    simp [gsum, L.add_zero] at e1 ⊢
+    simp at e1 ⊢
     rw [e1]; simp [gsum, L.add_zero]
+
+/-! ### checkPage -/
+
+theorem window_iff {ls p c : Nat} (hls : 0 < ls) : (p * ls ≤ c ∧ c < p * ls + ls) ↔ c / ls = p := by
+  constructor
+  · intro ⟨h1, h2⟩
+    apply Nat.div_eq_of_lt_le
+    · exact h1
+    · rw [Nat.add_mul]; omega
+  · intro e
+    subst e
+    have h1 := Nat.div_add_mod c ls
+    have h2 := Nat.mod_lt c hls
+    rw [Nat.mul_comm] at h1
+    omega
+
+/-- what `checkPage` recomputes for page `p` is what the page must hold: the fold of the stored refs on that page -/
+theorem calc_root {ls : Nat} (hls : 0 < ls) {d : Disk n} (g : GInv d) (p : Nat) :
+    ∃ txs, d.findBetweenLC (p * ls) (p * ls + ls) = .ok txs ∧
+      calcXor ls txs = pageVal xorOps ls (refClocks d.txs) p := by
+  obtain ⟨txs, hf, hperm⟩ := findBetweenLC_perm g (p * ls) (p * ls + ls)
+  refine ⟨txs, hf, ?_⟩
+  have hfold : txs.foldl (fun t tx => t.insert xorOps tx.ref tx.clock) (Tree.new xorOps ls) =
+      (refClocks txs).foldl (fun t rc => t.insert xorOps rc.1 rc.2) (Tree.new xorOps ls) := by
+    unfold refClocks; rw [List.foldl_map]
+  have i := insert_fold_new xor_lawful hls (refClocks txs)
+  unfold calcXor
+  rw [hfold, Tree.root_data xor_lawful _ i.1, i.2.1, i.2.2, List.filter_eq_self.mpr (fun _ _ => rfl)]
+  unfold pageVal
+  have h1 : (refClocks txs).Perm (refClocks (d.txs.filter (fun t => decide (p * ls ≤ t.clock ∧ t.clock < p * ls + ls)))) :=
+    hperm.map _
+  rw [specAll_perm xor_lawful h1]
+  congr 1
+  unfold refClocks
+  rw [List.filter_map]
+  congr 1
+  apply List.filter_congr
+  intro t _
+  simp only [Function.comp]
+  by_cases hw : p * ls ≤ t.clock ∧ t.clock < p * ls + ls
+  · have := (window_iff hls).mp hw
+    simp [hw, this]
+  · have : ¬ t.clock / ls = p := fun e => hw ((window_iff hls).mpr e)
+    simp [hw, this]
+
+/-- on a tree that is what the stored set implies, the page read back by `checkPage` is what the page must hold -/
+theorem pageXor_healthy {ls : Nat} (hls : 0 < ls) {l : List (Ref × Nat)} {t : Tree (BitVec 256)}
+    (i : TInv xorOps t) (e : t.leafSize = ls) (dg : Digest xorOps ls l t) (p : Nat) :
+    pageXor ls t p = pageVal xorOps ls l p := by
+  have L := xor_lawful
+  have hend : (p * ls + ls - 1) / ls = p := by
+    apply Nat.div_eq_of_lt_le
+    · omega
+    · rw [Nat.add_mul]; omega
+  have hz : ∀ c, (t.zeroTo xorOps c).1 = specAll xorOps (l.filter (fun rc => decide (rc.2 / ls ≤ c / ls))) := by
+    intro c; rw [Tree.zeroTo_data L t i c, e, dg]
+  unfold pageXor pageVal
+  by_cases h0 : p * ls ≠ 0
+  · have hp1 : 1 ≤ p := by
+      rcases Nat.eq_zero_or_pos p with e | e
+      · subst e; simp at h0
+      · exact e
+    have hstart : (p * ls - 1) / ls = p - 1 := by
+      apply Nat.div_eq_of_lt_le
+      · have : (p - 1) * ls + ls = p * ls := by rw [← Nat.succ_mul]; congr 1; omega
+        omega
+      · have : (p - 1 + 1) * ls = p * ls := by congr 1; omega
+        rw [this]
+        have : 0 < p * ls := Nat.mul_pos hp1 hls
+        omega
+    rw [if_pos h0, hz, hz, hend, hstart]
+    have hsplit := specAll_filter_split L (fun rc : Ref × Nat => decide (rc.2 / ls ≤ p - 1)) (fun rc => rc.2 / ls == p) l
+      (by intro rc _ ⟨h1, h2⟩; simp at h1 h2; omega)
+    have hcongr : l.filter (fun rc => decide (rc.2 / ls ≤ p)) =
+        l.filter (fun rc => decide (rc.2 / ls ≤ p - 1) || (rc.2 / ls == p)) := by
+      apply List.filter_congr
+      intro rc _
+      by_cases h1 : rc.2 / ls ≤ p - 1
+      · have : rc.2 / ls ≤ p := by omega
+        simp [h1, this]
+      · by_cases h2 : rc.2 / ls = p
+        · simp [h2]
+        · have : ¬ rc.2 / ls ≤ p := by omega
+          simp [h1, h2, this]
+    rw [hcongr, hsplit, L.add_comm, L.add_sub]
+  · rw [if_neg h0, hz, hend]
+    have : p = 0 := by
+      rcases Nat.eq_zero_or_pos p with e | e
+      · exact e
+      · have : 0 < p * ls := Nat.mul_pos e hls
+        omega
+    subst this
+    congr 1
+    apply List.filter_congr
+    intro rc _
+    by_cases h : rc.2 / ls = 0 <;> simp [h]
+
+def nextPage (cfg : Cfg) (s : State n) : Nat :=
+  if s.mem.repairPage * cfg.pageSize + cfg.pageSize > s.mem.lcHigh then 0 else s.mem.repairPage + 1
+
+theorem checkPage_nochange {cfg : Cfg} {s : State n} {txs : List Tx} (hc : ¬ s.mem.circuit < 2)
+    (hf : s.disk.findBetweenLC (s.mem.repairPage * cfg.pageSize) (s.mem.repairPage * cfg.pageSize + cfg.pageSize) = .ok txs)
+    (he : xorOps.empty (xorOps.sub (pageXor cfg.pageSize s.mem.xorTree s.mem.repairPage) (calcXor cfg.pageSize txs)) = true) :
+    checkPage cfg s = { s with mem := { s.mem with repairPage := nextPage cfg s } } := by
+  unfold Nuts.C08.checkPage nextPage
+  simp only [hc, if_false, hf, he, if_true]
+
+theorem checkPage_replace {cfg : Cfg} {s : State n} {txs : List Tx} (hc : ¬ s.mem.circuit < 2)
+    (hf : s.disk.findBetweenLC (s.mem.repairPage * cfg.pageSize) (s.mem.repairPage * cfg.pageSize + cfg.pageSize) = .ok txs)
+    (he : ¬ xorOps.empty (xorOps.sub (pageXor cfg.pageSize s.mem.xorTree s.mem.repairPage) (calcXor cfg.pageSize txs)) = true) :
+    checkPage cfg s =
+      { disk := { s.disk with xorLeaves := (persist (s.mem.xorTree.replace xorOps (s.mem.repairPage * cfg.pageSize)
+                    (calcXor cfg.pageSize txs)) s.disk.xorLeaves).2 },
+        mem := { s.mem with xorTree := (persist (s.mem.xorTree.replace xorOps (s.mem.repairPage * cfg.pageSize)
+                    (calcXor cfg.pageSize txs)) s.disk.xorLeaves).1, repairPage := nextPage cfg s } } := by
+  unfold Nuts.C08.checkPage nextPage
+  simp only [hc, if_false, hf, he, Bool.false_eq_true]
+
+/-- **checkPage on a healthy state** (any circuit state, any current page): nothing but the page counter changes -/
+theorem SInv.checkPage {cfg : Cfg} (G : Good cfg) {s : State n} (h : SInv cfg s) :
+    SInv cfg (checkPage cfg s) ∧ (checkPage cfg s).disk = s.disk ∧
+    (checkPage cfg s).mem.xorTree = s.mem.xorTree ∧ (checkPage cfg s).mem.ibltTree = s.mem.ibltTree ∧
+    (checkPage cfg s).mem.lcHigh = s.mem.lcHigh := by
+  by_cases hc : s.mem.circuit < 2
+  · have e : Nuts.C08.checkPage cfg s = s := by unfold Nuts.C08.checkPage; simp only [hc, if_true]
+    rw [e]; exact ⟨h, rfl, rfl, rfl, rfl⟩
+  · obtain ⟨txs, hf, hcalc⟩ := calc_root G.pos h.g s.mem.repairPage
+    have hi := h.x.inv xor_lawful G.pos
+    have hpx := pageXor_healthy G.pos hi.1 hi.2.1 hi.2.2 s.mem.repairPage
+    have hempty : xorOps.empty (xorOps.sub (pageXor cfg.pageSize s.mem.xorTree s.mem.repairPage)
+        (calcXor cfg.pageSize txs)) = true := by
+      rw [hpx, hcalc]; simp [xorOps]
+    rw [checkPage_nochange hc hf hempty]
+    exact ⟨⟨h.g, h.lc, h.x, h.i⟩, rfl, rfl, rfl, rfl⟩
+
+/-- a state whose XOR tree and shelf are in sync with each other but hold `val` instead of what the stored set implies
+    (a corrupted XOR leaf that was loaded from disk); everything else is as in `SInv` -/
+structure XInv (cfg : Cfg) (s : State n) (val : Nat → BitVec 256) : Prop where
+  g : GInv s.disk
+  lc : s.mem.lcHigh = s.disk.lcHigh
+  ne : s.disk.txs ≠ []
+  sync : Sync xorOps cfg.pageSize s.mem.xorTree s.disk.xorLeaves (maxClock s.disk.txs / cfg.pageSize + 1) val
+  i : TreeOK (ibltOps n) cfg.pageSize (keyClocks s.disk.txs) (maxClock s.disk.txs) s.mem.ibltTree s.disk.ibltLeaves
+
+/-- what the XOR pages must hold -/
+def xorSpec (cfg : Cfg) (s : State n) : Nat → BitVec 256 := pageVal xorOps cfg.pageSize (refClocks s.disk.txs)
+
+/-- when every page holds what it must, the state is healthy -/
+theorem XInv.healthy {cfg : Cfg} (G : Good cfg) {s : State n} (h : XInv cfg s (xorSpec cfg s)) : SInv cfg s := by
+  refine ⟨h.g, h.lc, Or.inr ⟨by simpa [refClocks] using h.ne, h.sync, ?_⟩, h.i⟩
+  intro q
+  rw [h.sync.holds.leaves]
+  unfold xorSpec
+  rw [fsum_pl_pageVal xor_lawful G.pos]
+  congr 1
+  apply List.filter_congr
+  intro rc hrc
+  simp only [refClocks, List.mem_map] at hrc
+  obtain ⟨t, ht, rfl⟩ := hrc
+  have : t.clock / cfg.pageSize ≤ maxClock s.disk.txs / cfg.pageSize := Nat.div_le_div_right (le_maxClock ht)
+  have : t.clock / cfg.pageSize < maxClock s.disk.txs / cfg.pageSize + 1 := by omega
+  simp [this]
+
+theorem SInv.toX {cfg : Cfg} {s : State n} (h : SInv cfg s) (hne : s.disk.txs ≠ []) : XInv cfg s (xorSpec cfg s) := by
+  rcases h.x with ⟨e, _⟩ | ⟨_, sy, _⟩
+  · exact absurd (by simpa [refClocks] using e) hne
+  · exact ⟨h.g, h.lc, hne, sy, h.i⟩
+
+/-- **Repair is local.** `checkPage` (circuit red) on the page `p` it is at, when that page exists: the page's leaf —
+    in memory and on disk — becomes the recomputed value; every other page's leaf, the IBLT tree and shelf and the
+    stored graph are untouched. -/
+theorem XInv.checkPage {cfg : Cfg} (G : Good cfg) {s : State n} {val : Nat → BitVec 256} (h : XInv cfg s val)
+    (hc : ¬ s.mem.circuit < 2) (hp : s.mem.repairPage ≤ maxClock s.disk.txs / cfg.pageSize) :
+    XInv cfg (checkPage cfg s) (upd val s.mem.repairPage (xorSpec cfg s s.mem.repairPage)) ∧
+    (checkPage cfg s).disk.txs = s.disk.txs ∧ (checkPage cfg s).disk.clocks = s.disk.clocks ∧
+    (checkPage cfg s).disk.count = s.disk.count ∧ (checkPage cfg s).disk.lcHigh = s.disk.lcHigh ∧
+    (checkPage cfg s).disk.head = s.disk.head ∧ (checkPage cfg s).disk.ibltLeaves = s.disk.ibltLeaves ∧
+    (checkPage cfg s).mem.ibltTree = s.mem.ibltTree ∧ (checkPage cfg s).mem.lcHigh = s.mem.lcHigh := by
+  have L := xor_lawful
+  have hls := G.pos
+  obtain ⟨txs, hf, hcalc⟩ := calc_root hls h.g s.mem.repairPage
+  have hpm : s.mem.repairPage < maxClock s.disk.txs / cfg.pageSize + 1 := by omega
+  have hpx : pageXor cfg.pageSize s.mem.xorTree s.mem.repairPage = val s.mem.repairPage :=
+    page_leaf_by_difference L h.sync.holds s.mem.repairPage hpm
+  have hspec : calcXor cfg.pageSize txs = xorSpec cfg s s.mem.repairPage := hcalc
+  by_cases he : xorOps.empty (xorOps.sub (pageXor cfg.pageSize s.mem.xorTree s.mem.repairPage)
+      (calcXor cfg.pageSize txs)) = true
+  · -- the page is right already: nothing changes
+    rw [checkPage_nochange hc hf he]
+    have heq : val s.mem.repairPage = xorSpec cfg s s.mem.repairPage := by
+      rw [hpx, hspec] at he
+      simpa [xorOps] using he
+    have hupd : upd val s.mem.repairPage (xorSpec cfg s s.mem.repairPage) = val := by
+      funext q; unfold upd; by_cases e : q = s.mem.repairPage
+      · subst e; simp [heq]
+      · simp [e]
+    have hx : xorSpec cfg { s with mem := { s.mem with repairPage := nextPage cfg s } } = xorSpec cfg s := rfl
+    rw [hupd]
+    exact ⟨⟨h.g, h.lc, h.ne, h.sync, h.i⟩, rfl, rfl, rfl, rfl, rfl, rfl, rfl, rfl⟩
+  · -- replace the leaf, rebuild, persist
+    rw [checkPage_replace hc hf he]
+    have hpage : s.mem.repairPage * cfg.pageSize / cfg.pageSize = s.mem.repairPage := Nat.mul_div_cancel _ hls
+    have r := h.sync.holds.replace L (s.mem.repairPage * cfg.pageSize) (calcXor cfg.pageSize txs) (by rw [hpage]; exact hpm)
+    rw [hpage] at r
+    obtain ⟨H', hd, ho⟩ := r
+    rw [h.sync.clean, List.nil_append] at hd
+    have hupdates : (s.mem.xorTree.replace xorOps (s.mem.repairPage * cfg.pageSize) (calcXor cfg.pageSize txs)).updates =
+        [(keyOf cfg.pageSize s.mem.repairPage, calcXor cfg.pageSize txs)] := by
+      unfold Tree.updates
+      rw [H'.leaves, hd, filter_pl_dirty hls _ s.mem.repairPage (by simp) (by intro x hx; simpa using hx)]
+      simp [hpm, upd]
+    refine ⟨⟨⟨h.g.idx, h.g.closed, h.g.count, h.g.lc, h.g.head, h.g.nodup, h.g.keys⟩, h.lc, h.ne, ?_, h.i⟩,
+      rfl, rfl, rfl, rfl, rfl, rfl, rfl, rfl⟩
+    rw [← hspec]
+    refine ⟨⟨H'.ls_pos, H'.ls_eq, H'.shape, H'.wf, H'.leaves⟩, rfl, ?_, ?_⟩
+    · show (s.mem.xorTree.replace xorOps _ _).resetUpdates.orphaned = []
+      simp [Tree.resetUpdates]
+    · show (persist _ s.disk.xorLeaves).2 = _
+      simp only [persist, hupdates, List.foldl_cons, List.foldl_nil]
+      rw [h.sync.shelf_eq, putSorted_pl hls _ _ _ 0 val (Nat.zero_le _) (by omega)]
+      congr 1
+      omega
+
+/-- a stored XOR leaf of an existing page overwritten on disk, then loaded by a restart -/
+theorem SInv.corrupt_restart {cfg : Cfg} (G : Good cfg) {s : State n} (h : SInv cfg s) (hne : s.disk.txs ≠ [])
+    (p : Nat) (hp : p ≤ maxClock s.disk.txs / cfg.pageSize) (v : BitVec 256) :
+    XInv cfg (Nuts.C08.restart cfg (corruptDisk s (keyOf cfg.pageSize p) v)) (upd (xorSpec cfg s) p v) ∧
+    (Nuts.C08.restart cfg (corruptDisk s (keyOf cfg.pageSize p) v)).disk.txs = s.disk.txs := by
+  have hx := h.toX hne
+  have hshelf : putSorted (keyOf cfg.pageSize p) v s.disk.xorLeaves =
+      pl cfg.pageSize 0 (maxClock s.disk.txs / cfg.pageSize + 1) (upd (xorSpec cfg s) p v) := by
+    rw [hx.sync.shelf_eq, putSorted_pl G.pos _ _ _ 0 _ (Nat.zero_le _) (by omega)]
+    congr 1; omega
+  refine ⟨⟨⟨h.g.idx, h.g.closed, h.g.count, h.g.lc, h.g.head, h.g.nodup, h.g.keys⟩, h.lc, hne, ?_, ?_⟩, rfl⟩
+  · show Sync xorOps cfg.pageSize (Tree.load xorOps cfg.loadEmptyResets (Tree.new xorOps cfg.pageSize)
+        (putSorted (keyOf cfg.pageSize p) v s.disk.xorLeaves)) (putSorted (keyOf cfg.pageSize p) v s.disk.xorLeaves) _ _
+    rw [hshelf]
+    have := Holds.load xor_lawful G.pos G.even cfg.loadEmptyResets (Tree.new xorOps cfg.pageSize)
+      (maxClock s.disk.txs / cfg.pageSize + 1) (upd (xorSpec cfg s) p v) (by omega)
+    exact ⟨this.1, this.2.1, this.2.2, rfl⟩
+  · show TreeOK (ibltOps n) cfg.pageSize _ _ (Tree.load (ibltOps n) cfg.loadEmptyResets (Tree.new (ibltOps n) cfg.pageSize)
+        s.disk.ibltLeaves) s.disk.ibltLeaves
+    rw [G.resets]
+    exact h.i.load (iblt_lawful n) G.even _ rfl
 
 end Nuts.C08
